@@ -458,7 +458,9 @@ theorem mi_convertDone (s : St) (st : Started) (h : MI s) :
     · exact SameM.refl _ _
     · refine ⟨rfl, rfl, fun hh => MB_map hh _ ?_⟩
       intro y
-      split <;> rfl
+      split
+      · split <;> rfl
+      · split <;> rfl
 
 theorem mi_markAdd (s : St) (st : Started) (name : String) (ids : List Nat) (h : MI s) :
     MI (step s (.markAdd name ids) st).1 := by
